@@ -551,3 +551,26 @@ free piece:
 +--------+-------+-------------+-----------------------------------+
 ```
 */
+
+/// verification hook (layout-probe): the slot decision of `write_piece` for value lengths
+/// `from` down to `to`, as (value length, encoded size-field bytes, piece bytes, rounded slot size).
+#[cfg(abyssiniandb_verif)]
+pub(crate) fn verif_value_slot_sweep(
+    from: usize,
+    to: usize,
+    f: &mut dyn FnMut(usize, u32, u32, u32),
+) {
+    let piece_mgr = PieceMgr::new(&REC_SIZE_FREE_OFFSET, &REC_SIZE_ARY);
+    let mut piece = ValuePiece::with_value(&vec![0u8; from]);
+    let mut len = from;
+    loop {
+        piece.value.truncate(len);
+        let (encorded_piece_len, piece_len, _value_len) = piece.encoded_piece_size();
+        let slot = piece_mgr.roundup(ValuePieceSize::new(encorded_piece_len + piece_len));
+        f(len, encorded_piece_len, piece_len, slot.as_value());
+        if len <= to {
+            break;
+        }
+        len -= 1;
+    }
+}
